@@ -108,6 +108,7 @@ def gen_plan(rng, index, tier):
                     {"op": "ndens", "idx": rng.randrange(1000), "nuc": rng.choice(["U235", "U238", "ZR", "FE", "NA23"]), "factor": rng.choice([0.5, 1.5, 2.0])},
                     {"op": "temp", "idx": rng.randrange(1000), "T": rng.choice([350.0, 400.0, 450.0, 475.0])},
                     {"op": "height", "idx": rng.randrange(1000), "factor": rng.choice([0.9, 1.1, 1.25])},
+                    {"op": "rotate", "idx": rng.randrange(1000), "k": rng.choice([1, 2, 4])},
                 ]))
     return {"config": cfg, "steps": steps}
 
@@ -267,6 +268,16 @@ class Runner:
         elif op == "temp":
             c = comps[st["idx"] % len(comps)]
             target, call = c, (lambda: c.setTemperature(st["T"] + 7.0))
+        elif op == "rotate":
+            import math
+
+            from armi.reactor.blocks import HexBlock
+
+            hb = [b for b in blks if isinstance(b, HexBlock)]
+            if not hb:
+                return
+            b = hb[st["idx"] % len(hb)]
+            target, call = b, (lambda: b.rotate(math.radians(60.0 * st["k"])))
         else:
             b = blks[st["idx"] % len(blks)]
             target, call = b, (lambda: b.setHeight(b.getHeight() * st["factor"]))
@@ -285,7 +296,7 @@ class Runner:
     def do(self, st, depth):
         op = st["op"]
         r = self.r
-        if self.readonly and op in ("ndens", "temp", "height"):
+        if self.readonly and op in ("ndens", "temp", "height", "rotate"):
             self.readonly_attempt(st)
             return
         if op == "setp":
